@@ -218,6 +218,15 @@ func genC04(g *Rng, tier string, emit func(Op)) {
 						if err != nil {
 							panic(err)
 						}
+						abandoned := ""
+						if mask%2 == 1 {
+							// a first attempt that is abandoned after the challenge (fresh randomisers are
+							// drawn per attempt): the builder must still produce a verifying proof afterwards
+							if _, err := (gabi.ProofBuilderList{b}).Challenge(g.bits(256), g.bits(80), issig); err != nil {
+								panic(err)
+							}
+							abandoned = "-after-abandoned-attempt"
+						}
 						pl, err := gabi.ProofBuilderList{b}.BuildProofList(ctx, nonce, issig)
 						if err != nil {
 							panic(err)
@@ -228,7 +237,7 @@ func genC04(g *Rng, tier string, emit func(Op)) {
 						if nonrev && ambiguous(tree) {
 							continue // the known verifier ambiguity of C11 is not this property's concern
 						}
-						op := Op{"op": "memberD", "class": fmt.Sprintf("subset-k%d-nonrev%v", k, nonrev), "label": "accept", "key": kp.id,
+						op := Op{"op": "memberD", "class": fmt.Sprintf("subset-k%d-nonrev%v%s", k, nonrev, abandoned), "label": "accept", "key": kp.id,
 							"proof": tree, "context": hx(ctx), "nonce": hx(nonce), "issig": issig,
 							"attrs": hxs(truth), "disclosed": intsAny(disclosed), "ts": hxs(ts)}
 						if nonrev {
